@@ -15,7 +15,7 @@ HEAD = """SPECIFICATION TSpec
 CONSTANTS MinMtu = 128 MaxCap = 65536 TraceFile = "@TRACE@"
 """
 PROPS = ["T_C17nocrash", "T_C17status", "T_C17auth"]
-INVS = ["I_C17routes", "I_C17strats", "I_C17cap", "I_C17fib", "I_C17faces", "I_C17ds", "I_C17usable"]
+INVS = ["I_C17routes", "I_C17strats", "I_C17cap", "I_C17fib", "I_C17faces", "I_C17ds", "I_C17ds2", "I_C17usable"]
 
 
 def nontrivial(ex):
@@ -32,10 +32,10 @@ def run(pid, tier, replay=None):
             props=PROPS, invs=INVS, nontrivial=nontrivial,
             rule_text="a whole node in one synctest bubble: the real management thread on its internal face, a real forwarding thread (so the /localhost and "
                       "/localhop scope rules in front of management are exercised), a local and a non-local requester face and two UDP-like faces over "
-                      "in-memory transports, both FIB implementations, /localhop management on and off; random histories of rib/fib/strategy-choice/cs/faces "
+                      "in-memory transports, both FIB implementations, /localhop management on and off; random histories of rib/fib/strategy-choice/cs/faces (update, destroy) "
                       "commands with every field present/absent/boundary (face missing/0/absent, strategy bare/unknown/bad version/foreign/empty, capacity "
                       "0..2^64-1, MTU 0..2^32), wrong prefixes, non-local arrival, missing or undecodable parameters, unknown verbs. After each command: status "
-                      "(StatusOK), RIB/FIB/strategy/CS capacity/face MTUs against the model, rib/list and strategy-choice/list datasets against the tables, "
+                      "(StatusOK), RIB/FIB/strategy/CS capacity/face MTUs against the model, rib/list, strategy-choice/list, fib/list, faces/list and cs/info datasets against the tables, "
                       "a 300-byte packet sent on each target face must leave in MTU-sized frames that reassemble; no goroutine may panic; state changes only by authorised commands",
             assumptions=["TLC, JVM, Go runtime, testing/synctest trusted", "faces are link services over in-memory transports (URI schemes udp4/unix/fd): socket-level face creation (faces/create) is not driven",
                          "an MTU of 1..127 may be refused or accepted by an implementation (what is decided is that the face stays usable); 128 and above must be accepted"])
